@@ -658,9 +658,14 @@ func c13_5(c *core.Ctx, p *core.Prog) {
 				called = true
 			}
 		})
-		okS = stored && called
+		// on every path: no early exit that skips the re-evaluation
+		every := core.MustPassBetween(sc, nil, nil, func(i ssa.Instruction) bool {
+			cl, ok := i.(*ssa.Call)
+			return ok && cl.Call.StaticCallee() == fn
+		})
+		okS = stored && called && every
 	}
-	c.Check(okS, "set-cardinality", pos, core.FuncName(fn), "every measured cardinality is stored and re-evaluated", "SetCardinality does not store the measured cardinality and re-evaluate the index width")
+	c.Check(okS, "set-cardinality", pos, core.FuncName(fn), "every measured cardinality is stored and re-evaluated", "SetCardinality does not store the measured cardinality and re-evaluate the index width on every path (e.g. it returns early when the cardinality is unchanged): after a reset that cannot help, the rebuilt record has the same cardinality, no overflow is raised and a dictionary larger than its index width is sent")
 }
 
 func c13_6(c *core.Ctx, p *core.Prog) {
@@ -811,4 +816,13 @@ func c13_7(c *core.Ctx, p *core.Prog) {
 		})
 	}
 	c.Check(okT, "downgrade", "pkg/otel/common/schema/transform/dictionary.go", "Transform", "without index types a dictionary field becomes its value type", "with no index types the transform does not downgrade a dictionary field to its value type")
+}
+
+func init() {
+	// mechanisms named by C04 (overflow detection / discard / rebuild; new schema ⇒ new schema id ⇒ new IPC stream)
+	register("C04", &core.Rule{ID: "C04.4", Title: "a schema update installs fresh builders and recomputes the schema id", Mod: core.ModRoot, Floor: 3, Run: c13_6})
+	register("C04", &core.Rule{ID: "C04.41", Title: "related schema keys are read after Build and carry their own prefix/type", Mod: core.ModRoot, Floor: 4, Run: c12_3})
+	register("C04", &core.Rule{ID: "C04.42", Title: "a new schema key closes the same-type stream producers and takes the next schema id", Mod: core.ModRoot, Floor: 5, Run: c12_5})
+	register("C04", &core.Rule{ID: "C04.7", Title: "index width advances on excess; reset or disable past the last width; every measurement re-evaluated", Mod: core.ModRoot, Floor: 3, Run: c13_5})
+	register("C04", &core.Rule{ID: "C04.8", Title: "records are handed out only after the dictionary scan and an up-to-date check", Mod: core.ModRoot, Floor: 3, Run: c13_1})
 }
